@@ -29,6 +29,8 @@ def sim_asset_income(a, r, w):
     return ainc
 
 sim = hetblocks.hh_sim.hh.add_hetinputs([sim_income, sim_grids]).add_hetoutputs([sim_mpc_proxy, sim_asset_income])
+sim_shipped = hetblocks.hh_sim.hh_extended           # the shipped extended block with its own grid and income functions
+SIM_SHIPPED_CALIB = dict(hetblocks.hh_sim.example_calibration(), n_a=30, n_e=3, max_a=80.0, min_a=-0.25)
 SIM_CALIB = dict(min_a=0.0, max_a=60.0, rho_e=0.9, sd_e=0.6, n_a=24, n_e=3, w=1.0, r=0.02, beta=0.95, eis=0.8)
 
 # ---- the same household as a backward-function block and as a sequence of stages (as in tests/base/test_stage_block.py) ----
